@@ -346,4 +346,83 @@ theorem number_scanner_equiv (σ : Int) (c : UInt8) (bs : Bytes) (i : Nat) (hc :
     rw [this]
     rfl
 
+
+/-! ### the reference number scanner only moves forward -/
+
+theorem skipDigits_idx : ∀ (s : Bytes) (i : Nat), i ≤ (skipDigits s i).2
+  | [], i => by simp [skipDigits]
+  | b :: bs, i => by
+    unfold skipDigits
+    split
+    · have := skipDigits_idx bs (i + 1); omega
+    · simp
+
+theorem skipDigits_idx' (s : Bytes) (i : Nat) (r : Bytes) (j : Nat) (h : skipDigits s i = (r, j)) : i ≤ j := by
+  have := skipDigits_idx s i; rw [h] at this; exact this
+
+theorem expPhase_idx (s : Bytes) (i : Nat) (r : Bytes) (j : Nat) (h : expPhase s i = .ok (r, j)) : i ≤ j := by
+  unfold expPhase at h
+  repeat' split at h
+  all_goals first
+    | (cases h; done)
+    | (cases h; simp; done)
+    | skip
+  rename_i heq _
+  have hl : ∀ {b : UInt8} {r' rr : Bytes} {jj : Nat}, (match rr with
+      | 43 :: t => (t, i + 2)
+      | 45 :: t => (t, i + 2)
+      | _ => (rr, i + 1)) = (b :: r', jj) → i + 1 ≤ jj := by
+    intro b r' rr jj heq
+    split at heq <;> (simp only [Prod.mk.injEq] at heq; obtain ⟨_, e⟩ := heq; omega)
+  have h1 := hl heq
+  simp only [Except.ok.injEq] at h
+  have h2 := skipDigits_idx' _ _ _ _ h
+  omega
+
+theorem fracPhase_idx (s : Bytes) (i : Nat) (r : Bytes) (j : Nat) (h : fracPhase s i = .ok (r, j)) : i ≤ j := by
+  unfold fracPhase at h
+  repeat' split at h
+  all_goals first
+    | (cases h; done)
+    | (cases h; simp; done)
+    | skip
+  simp only [Except.ok.injEq] at h
+  have h2 := skipDigits_idx' _ _ _ _ h
+  omega
+
+theorem intPhase_idx (s : Bytes) (i : Nat) (r : Bytes) (j : Nat) (h : intPhase s i = .ok (r, j)) : i < j := by
+  unfold intPhase at h
+  repeat' split at h
+  all_goals first
+    | (cases h; done)
+    | (cases h; simp; done)
+    | skip
+  simp only [Except.ok.injEq] at h
+  have h2 := skipDigits_idx' _ _ _ _ h
+  omega
+
+theorem signPhase_idx (s : Bytes) (i : Nat) : i ≤ (signPhase s i).2 := by
+  unfold signPhase
+  split <;> simp
+
+theorem scanNumber_idx (s : Bytes) (i : Nat) (r : Bytes) (j : Nat) (h : scanNumber s i = .ok (r, j)) : i < j := by
+  rw [scanNumber_phases] at h
+  have h0 := signPhase_idx s i
+  cases h1 : intPhase (signPhase s i).1 (signPhase s i).2 with
+  | error e => rw [h1] at h; cases h
+  | ok x =>
+    obtain ⟨s2, i2⟩ := x
+    rw [h1] at h
+    simp only [] at h
+    have l1 := intPhase_idx _ _ _ _ h1
+    cases h2 : fracPhase s2 i2 with
+    | error e => rw [h2] at h; cases h
+    | ok y =>
+      obtain ⟨s3, i3⟩ := y
+      rw [h2] at h
+      simp only [] at h
+      have l2 := fracPhase_idx _ _ _ _ h2
+      have l3 := expPhase_idx _ _ _ _ h
+      omega
+
 end Ajson.Proofs
